@@ -29,6 +29,24 @@ CHECKS = {
              "up to length 5 (quick) / 6 (thorough) plus random multi-candidate lists.",
         ref="5 C18", technique="Coq theorems parametric in the distance (Section variable); exhaustive + random in-Coq differential check",
         note="Trusted: Coq kernel + vm_compute, model DidYouMean.v; strsim is modelled and tied by correspondence only (partial: distance = strsim by correspondence). No axioms."),
+    "C05": dict(
+        text="Proof: for every integer target (all signed/unsigned/NonZero widths = every int_desc), every value, every script and state, the run equals the "
+             "specification outcome: Ok with the input number itself and no call iff kind admissible and number in the domain (c05_in_domain: within MIN..MAX, "
+             "non-zero), otherwise exactly one error(None, kind, location) with exactly the admissible kinds or the domain message naming the received number/zero "
+             "and the violated bound; same for (), bool, String, char. Correspondence: all 24 integer types x every integer of [-70000,70000] exhaustively "
+             "(3.36 M outcomes re-expanded and compared in Coq) plus boundary values, floats by exact bit pattern (Flocq binary_normalize), strings, non-scalars.",
+        ref="5 C05", technique="Coq theorems by case analysis + lia; exhaustive in-Coq differential sweep; Flocq-computed IEEE conversions compared bit for bit",
+        note="Trusted: Coq kernel + vm_compute, model Scalars.v/Floats.v, harness, emitter. Theorems closed under the global context. The IEEE-rounding "
+             "theorem for floats is not among the obligations (floats are tied by bit-exact correspondence with Flocq's binary_normalize only): partial for floats. "
+             "usize = 64 bits assumed."),
+    "C13": dict(
+        text="Proof: for every document serde_json can hold (wf_json: u64 / negative i64 / finite f64, sorted unique keys), at any depth and size: Deserr for "
+             "serde_json::Value returns Ok of the same document without a single call to the error type under any script; From<Value> gives the document back; "
+             "kind() equals the kind of the consumed view; the view is well-formed; number classes follow the literal rule. Correspondence on JSON texts parsed by "
+             "serde_json (exhaustive small documents, all boundary literals, random nesting).",
+        ref="5 C13", technique="Coq theorems by nested induction on documents (custom induction principle, sorted-insert lemmas); in-Coq differential check on parsed JSON text",
+        note="Trusted: Coq kernel + vm_compute, model Json.v, harness, emitter; serde_json's parser (literal classification is specified, tied by correspondence; "
+             "float values of fractional/huge literals are an oracle from serde_json): partial for float literal values. No axioms."),
 }
 
 NOT_YET = {}
